@@ -1552,7 +1552,10 @@ func (b *Bitmap) ImportRoaringBits(data []byte, clear bool, log bool, rowSize ui
 	// Walk the whole input once before touching b, so that a container that
 	// is out of bounds or of an unknown type rejects the import as a whole
 	// instead of leaving the containers before it applied and unlogged.
-	for _, _, _, _, _, itrErr = itr.Next(); itrErr == nil; _, _, _, _, _, itrErr = itr.Next() {
+	for itrKey, itrCType, itrN, itrLen, itrPointer, itrErr = itr.Next(); itrErr == nil; itrKey, itrCType, itrN, itrLen, itrPointer, itrErr = itr.Next() {
+		if err := validateImportContainer(itrCType, itrN, itrLen, itrPointer); err != nil {
+			return 0, nil, fmt.Errorf("container key %d: %v", itrKey, err)
+		}
 	}
 	if itrErr != io.EOF {
 		return 0, nil, itrErr
@@ -1641,6 +1644,50 @@ func (b *Bitmap) ImportRoaringBits(data []byte, clear bool, log bool, rowSize ui
 	}
 	return changed, rowSet, err
 
+}
+
+// validateImportContainer checks that the container data yielded by a
+// roaringIterator is consistent with its header: the cardinality matches the
+// contents, array values and runs are in strictly increasing order. Imported
+// containers are merged into (or become) live containers, whose operations
+// rely on these invariants.
+func validateImportContainer(typ byte, n int, length int, pointer *uint16) error {
+	switch typ {
+	case containerArray:
+		a := (*[1 << 16]uint16)(unsafe.Pointer(pointer))[:length:length]
+		if len(a) != n {
+			return fmt.Errorf("array of %d values with cardinality %d", len(a), n)
+		}
+		for i := 1; i < len(a); i++ {
+			if a[i] <= a[i-1] {
+				return fmt.Errorf("array values not in increasing order at %d", i)
+			}
+		}
+	case containerBitmap:
+		words := (*[bitmapN]uint64)(unsafe.Pointer(pointer))[:bitmapN:bitmapN]
+		count := 0
+		for _, w := range words {
+			count += int(popcount(w))
+		}
+		if count != n {
+			return fmt.Errorf("bitmap with %d bits and cardinality %d", count, n)
+		}
+	case containerRun:
+		runs := (*[1 << 16]interval16)(unsafe.Pointer(pointer))[:length:length]
+		count := 0
+		for i, r := range runs {
+			if r.last < r.start || (i > 0 && r.start <= runs[i-1].last) {
+				return fmt.Errorf("runs not in increasing order at %d", i)
+			}
+			count += int(r.last-r.start) + 1
+		}
+		if count != n {
+			return fmt.Errorf("runs with %d bits and cardinality %d", count, n)
+		}
+	default:
+		return fmt.Errorf("unknown container type %d", typ)
+	}
+	return nil
 }
 
 // unmarshalPilosaRoaring treats data as being encoded in Pilosa's 64 bit
